@@ -11,25 +11,30 @@
 (* with the clock phase in which they are delivered, the order of starts, returns and serves).  *)
 EXTENDS Auction, Json
 
-CONSTANTS TickWeight, DeliverWeight, StartWeight   \* weights of a clock tick / a relay's answer / the start of an auction
-VARIABLES hist, servedKeys, mode, lastcfg, want
-svars == <<vars, hist, servedKeys, mode, lastcfg, want>>
+CONSTANTS TickWeight, DeliverWeight, StartWeight,   \* weights of a clock tick / a relay's answer / the start of an auction
+          Family   \* "fake": relay clients are in-process fakes registered in the client cache, the builder catalogue varies per
+                   \* auction; "wired": real util.FetchBuilderClient + HTTP relay clients against relay servers, real execution
+                   \* configuration (V2), the block relay service hands its own (one) builder catalogue to the strategy
+VARIABLES hist, servedKeys, mode, lastcfg, want, ftab   \* ftab: the catalogue of the first auction ("" before it)
+svars == <<vars, hist, servedKeys, mode, lastcfg, want, ftab>>
 
-C(m, k, g) == [min |-> m, key |-> k, grace |-> g]
-ScenCfgSet == [Relays -> {C(m, k, g) : m \in {0, 2}, k \in {"none", "config"}, g \in {0, 1}}]
-ScenProvSet == [Relays -> BOOLEAN]
+C(m, k, g, sp) == [min |-> m, key |-> k, grace |-> g, sp |-> sp]
+ScenCfgSet == [Relays -> {C(m, k, g, sp) : m \in {0, 2}, k \in {"none", "config"}, g \in {0, 1}, sp \in Spellings}]
+ScenFetchSet == Relays \X Spellings
 K(s, p, v) == [s |-> s, p |-> p, v |-> v]
 \* (slot, parent, pubkey): two validators of one slot, two parents of one slot, the next slot
 ScenKeys == {K(1, 1, 1), K(1, 1, 2), K(1, 2, 1), K(2, 1, 1)}
 
-FlipKey(k) == IF k = "none" THEN "config" ELSE "none"
 \* the relay configurations of the next auction: any minimum values, the public key added to / removed
-\* from at most one relay's configuration, the grace period of at most one relay changed
+\* from / changed in at most one relay's configuration, the grace period of at most one relay changed, at most one
+\* relay under another spelling of its address (another key, or none, in the user-information part)
 NextCfgs(c) ==
     { [r \in Relays |-> [min |-> m[r],
-                         key |-> IF r = kr THEN FlipKey(c[r].key) ELSE c[r].key,
-                         grace |-> IF r = gr THEN 1 - c[r].grace ELSE c[r].grace]] :
-        m \in [Relays -> {0, 2}], kr \in Relays \cup {0}, gr \in Relays \cup {0} }
+                         key |-> IF r = kr THEN nk ELSE c[r].key,
+                         grace |-> IF r = gr THEN 1 - c[r].grace ELSE c[r].grace,
+                         sp |-> IF r = sr THEN ns ELSE c[r].sp]] :
+        m \in [Relays -> {0, 2}], kr \in Relays \cup {0}, nk \in {"none", "config", "config2"}, gr \in Relays \cup {0},
+        sr \in Relays \cup {0}, ns \in Spellings }
 
 \* bias: every clean bid; each single eligibility defect on a bid that would win if wrongly accepted
 TopVal == CHOOSE v \in Values : \A w \in Values : w <= v
@@ -42,6 +47,9 @@ DefectBids ==
               [Clean(TopVal, b, h) EXCEPT !.sig = "unverifiable"] } : b \in {"std", "plus"} \cap BuilderSet, h \in Headers }
     \cup { Clean(0, "std", 1), [Clean(TopVal, "plus", 2) EXCEPT !.sig = "invalid", !.feeZero = TRUE] }
 ScenAnswers == CleanBids \cup DefectBids \cup {NoBidAnswer, ErrorAnswer}
+\* wired family: as many bids signed with the relay's other key (the valid ones of a validator whose configuration
+\* names K2 for the relay) as bids signed with K1
+WiredAnswers == CleanBids \cup {[a EXCEPT !.sig = "invalid"] : a \in CleanBids} \cup DefectBids \cup {NoBidAnswer, ErrorAnswer}
 
 Seq3(f) == [r \in Relays |-> f[r]]
 \* the builder catalogue the driver hands to the strategy for this auction
@@ -54,7 +62,8 @@ SInit ==
     /\ mode \in {"seq", "ovl"}
     /\ lastcfg \in ScenCfgSet
     /\ want \in 2..MaxAuctions
-    /\ hist = <<[ev |-> "Reset", variant |-> variant, prov |-> Seq3(prov), mode |-> mode]>>
+    /\ ftab = ""
+    /\ hist = <<[ev |-> "Reset", variant |-> variant, family |-> Family, mode |-> mode]>>
 
 H(e) == hist' = Append(hist, e)
 
@@ -75,20 +84,23 @@ SNext ==
           /\ mode = "seq" => Open = {}
           /\ FreeKeys # {}
           /\ \E w \in 1..StartWeight, k \in {RandomElement(FreeKeys)}, c \in {RandomElement(NextCfgs(lastcfg))},
-                t \in {RandomElement(TableSet)} :
+                t \in {IF Family = "wired" /\ ftab # "" THEN ftab ELSE RandomElement(TableSet)} :
                LET i == NextIdle
                IN /\ Start(i, k, c, t)
                   /\ H([ev |-> "Auction", i |-> i, key |-> k, cfg |-> Seq3(c), tab |-> t, builders |-> BuilderTable(t), w |-> w])
                   /\ lastcfg' = c
+                  /\ ftab' = IF ftab = "" THEN t ELSE ftab
           /\ UNCHANGED <<servedKeys, mode, want>>
        \/ \E i \in Open, r \in Relays, w \in 1..DeliverWeight : \E a \in {RandomElement(AnswerSet)} :
             Deliver(i, r, a) /\ H([ev |-> "Deliver", i |-> i, r |-> r, n |-> rounds[i][r] + 1, a |-> a, ph |-> clock[i], w |-> w])
-                             /\ UNCHANGED <<servedKeys, mode, lastcfg, want>>
-       \/ \E i \in Open : \E e \in chan[i] : Consume(i, e) /\ UNCHANGED <<hist, servedKeys, mode, lastcfg, want>>
-       \/ \E i \in Open, w \in 1..TickWeight : Tick(i) /\ H([ev |-> "Tick", i |-> i, w |-> w]) /\ UNCHANGED <<servedKeys, mode, lastcfg, want>>
-       \/ \E i \in Open : Return(i) /\ H([ev |-> "Return", i |-> i]) /\ UNCHANGED <<servedKeys, mode, lastcfg, want>>
+                             /\ UNCHANGED <<servedKeys, mode, lastcfg, want, ftab>>
+       \/ \E a \in {RandomElement(FetchSet)} : \E via \in {RandomElement({"registrations", "other"})} :
+            Fetch(a[1], a[2]) /\ H([ev |-> "Fetch", r |-> a[1], sp |-> a[2], via |-> via]) /\ UNCHANGED <<servedKeys, mode, lastcfg, want, ftab>>
+       \/ \E i \in Open : \E e \in chan[i] : Consume(i, e) /\ UNCHANGED <<hist, servedKeys, mode, lastcfg, want, ftab>>
+       \/ \E i \in Open, w \in 1..TickWeight : Tick(i) /\ H([ev |-> "Tick", i |-> i, w |-> w]) /\ UNCHANGED <<servedKeys, mode, lastcfg, want, ftab>>
+       \/ \E i \in Open : Return(i) /\ H([ev |-> "Return", i |-> i]) /\ UNCHANGED <<servedKeys, mode, lastcfg, want, ftab>>
        \/ \E k \in Keys \ servedKeys : Serve(k) /\ H([ev |-> "Serve", key |-> k]) /\ servedKeys' = servedKeys \cup {k}
-                                                /\ UNCHANGED <<mode, lastcfg, want>>
+                                                /\ UNCHANGED <<mode, lastcfg, want, ftab>>
 
 SSpec == SInit /\ [][SNext]_svars
 
